@@ -29,12 +29,13 @@ func init() {
 		Flavours: releaseThenGo126,
 		Required: []string{"kind/legacy", "kind/legacy+version", "kind/BytesValue", "kind/StringValue", "kind/BytesValue+version",
 			"body/0", "body/1", "body/70000", "ver/len=0", "ver/len=16", "ver/interior-NUL", "chunk/whole", "chunk/one-byte", "chunk/random", "chunk/data+EOF", "chunk/zero-reads",
-			"stream/frames=1", "stream/frames>=4", "stream/eof-after-last", "target/reused", "target/reused-for-empty-body"},
+			"stream/frames=1", "stream/frames>=4", "stream/eof-after-last", "target/reused", "target/reused-for-empty-body", "stream/frame>1MiB-followed-by-frames"},
 		Families: func(c *mon.Config) []mon.Family {
 			return []mon.Family{
 				{Name: "frames", N: pbNKinds * (len(c06BodyLens) + 1) * 17 * c.Pick(2, 100), Run: c06Frames},
 				{Name: "streams", N: c.Pick(20000, 3000000), Run: c06Streams},
 				{Name: "reused-target", N: pbNKinds * chNModes * c.Pick(10, 2000), Run: c06Reuse},
+				{Name: "big-body-streams", N: pbNKinds * 3 * 4 * c.Pick(1, 6), Run: c06BigStreams},
 			}
 		},
 	})
@@ -272,5 +273,39 @@ func c06Reuse(w *mon.W, idx int) {
 	w.Distinct(h)
 	w.Sample(func() interface{} {
 		return mon.D{"what": "alternating non-empty / empty-body frames decoded into ONE reused target", "kind": pbKindNames[kind], "chunking": chNames[mode], "frames": len(frames)}
+	})
+}
+
+// c06BigStreams puts a frame with a body around 1 MiB (where buffering strategies change) in the
+// middle of a stream: the frames after it must still be returned one per call.
+func c06BigStreams(w *mon.W, idx int) {
+	r := w.Rng
+	kind := idx % pbNKinds
+	size := []int{1<<20 - 40, 1<<20 + 1, 1300000}[(idx/pbNKinds)%3]
+	mode := []int{chWhole, chRandom, chEOFWithData, chZeroReads}[(idx/pbNKinds/3)%4]
+	if kind == pbKString {
+		size /= 2 // the payload is hex encoded
+		size++
+	}
+	var cases []pbCase
+	var frames [][]byte
+	for _, n := range []int{5, size, 0, 17, 1} {
+		c := pbCase{Kind: kind, Payload: pbPayload(r, n), Ver: pbVersion(r, r.Intn(17))}
+		f, ok := c06CheckMarshal(w, c)
+		if !ok {
+			return
+		}
+		cases = append(cases, c)
+		frames = append(frames, f)
+		w.Tick()
+	}
+	w.Bucket("chunk/" + chNames[mode])
+	w.Bucket("stream/frame>1MiB-followed-by-frames")
+	if !c06CheckStream(w, cases, frames, mode, idx&1 == 1) {
+		return
+	}
+	w.Distinct(gen.Hash64(uint64(mode)+5000, gen.HashBytes(frames[1][:4096]), uint64(len(frames[1]))))
+	w.Sample(func() interface{} {
+		return mon.D{"what": "stream with a frame around 1 MiB followed by 3 more frames", "kind": pbKindNames[kind], "big_body_len": len(frames[1]) - 32, "chunking": chNames[mode]}
 	})
 }
